@@ -1,5 +1,6 @@
 import GB.C19.Proofs
 import GB.C19.Join
+import GB.C19.QueryProofs
 import GB.Generated.Facts
 /-
   C19 — property theorems.  `dispatch` is `WebBridge.ServeHTTP` (bridge.go, after fix D18),
@@ -253,4 +254,138 @@ theorem C19_facts_ascii_fold_only :
       ["bridge.go:headerHasToken:ascii.EqualFold", "bridge.go:isGRPCWebContentType:ascii.EqualFold"]
     ∧ GB.Generated.c19UnicodeCaseCalls = []
     ∧ GB.Generated.c19AsciiImport = "github.com/renbou/grpcbridge/internal/ascii" := by
+  decide
+
+
+/-! ### Round 5 (w2net): the metadata-query clause over the RAW query string (`url.ParseQuery` inside the model)
+
+  `queryPairs raw` = the `(key, value)` pairs Go 1.23 `url.ParseQuery` adds to the map for `r.URL.RawQuery = raw`,
+  in order; `urlQuery raw` = `r.URL.Query()`; `rawMetadataQuery param raw` = `parseMetadataQuery` on it. -/
+
+/-- Which pairs `url.ParseQuery` yields, for EVERY raw query: one per non-empty '&'-separated segment that has no
+    ';' and whose key part (before the first '=') and value part (after it) both unescape; malformed segments are
+    skipped, parsing continues. -/
+theorem C19_rawquery_pairs (raw : Bytes) (p : Bytes × Bytes) :
+    p ∈ queryPairs raw ↔
+      ∃ seg ∈ splitB 38 raw, seg ≠ [] ∧ (59 : UInt8) ∉ seg ∧
+        unescape (cutB 61 seg).1 = some p.1 ∧ unescape (cutB 61 seg).2 = some p.2 := by
+  unfold queryPairs
+  simp only [List.mem_filterMap]
+  constructor
+  · rintro ⟨seg, hs, hp⟩
+    refine ⟨seg, hs, ?_⟩
+    unfold parsePair at hp
+    split at hp
+    · exact absurd hp (by simp)
+    · rename_i h1
+      split at hp
+      · exact absurd hp (by simp)
+      · rename_i h2
+        split at hp
+        · rename_i k v hk hv
+          simp only [Option.some.injEq] at hp
+          subst hp
+          refine ⟨?_, ?_, hk, hv⟩
+          · intro hh; subst hh; simp at h2
+          · intro hh; exact h1 (by simpa using hh)
+        · exact absurd hp (by simp)
+  · rintro ⟨seg, hs, hne, hsemi, hk, hv⟩
+    refine ⟨seg, hs, ?_⟩
+    unfold parsePair
+    have h1 : seg.contains 59 = false := by
+      cases hc : seg.contains 59
+      · rfl
+      · have hm : (59 : UInt8) ∈ seg := by simpa using hc
+        exact absurd hm hsemi
+    have h2 : seg.isEmpty = false := by
+      cases seg with
+      | nil => exact absurd rfl hne
+      | cons _ _ => rfl
+    simp [h1, h2, hk, hv, hsemi]
+
+/-- `r.URL.Query()[k]` = the values of the pairs with key `k`, in the order they stand in the raw query
+    (repeated keys keep their order; keys are compared after unescaping). -/
+theorem C19_urlquery_values (raw k : Bytes) : mdLookup (urlQuery raw) k = valuesOf k (queryPairs raw) := by
+  unfold urlQuery groupPairs
+  rw [lookup_foldl_addValue]
+  simp [mdLookup]
+
+/-- FOR EVERY RAW QUERY STRING: the metadata `parseMetadataQuery` hands on under key `k'` is — as a multiset; the
+    order between two different spellings of one key is Go map order — exactly the values of the raw pairs
+    `param[k]=v` with a valid key `k`, `lower k = k'`, and a printable value `v`. -/
+theorem C19_rawquery_metadata (param raw k' : Bytes) :
+    (mdLookup (rawMetadataQuery param raw).md k').Perm
+      (rawCollect (if param.isEmpty then defaultParam else param) k' (queryPairs raw)) := by
+  unfold rawMetadataQuery
+  rw [C19_mdquery]
+  exact collect_group_perm _ _ _
+
+/-- membership form of `C19_rawquery_metadata`: nothing is invented, nothing valid is dropped -/
+theorem C19_rawquery_metadata_mem (param raw k' v : Bytes) :
+    v ∈ mdLookup (rawMetadataQuery param raw).md k' ↔
+      ∃ p ∈ queryPairs raw, isMetaKey (if param.isEmpty then defaultParam else param) p.1 = true ∧
+        isValidMetadataKey (mdKeyOf (if param.isEmpty then defaultParam else param) p.1) = true ∧
+        lower (mdKeyOf (if param.isEmpty then defaultParam else param) p.1) = k' ∧
+        isValidMetadataValue p.2 = true ∧ p.2 = v := by
+  rw [(C19_rawquery_metadata param raw k').mem_iff]
+  generalize (if param.isEmpty = true then defaultParam else param) = P
+  unfold rawCollect
+  simp only [List.mem_filterMap]
+  constructor
+  · rintro ⟨p, hp, h⟩
+    refine ⟨p, hp, ?_⟩
+    by_cases hc : (isMetaKey P p.1 && isValidMetadataKey (mdKeyOf P p.1) && lower (mdKeyOf P p.1) == k' && isValidMetadataValue p.2) = true
+    · rw [if_pos hc] at h
+      simp only [Bool.and_eq_true, beq_iff_eq] at hc
+      simp only [Option.some.injEq] at h
+      exact ⟨hc.1.1.1, hc.1.1.2, hc.1.2, hc.2, h⟩
+    · rw [if_neg hc] at h; cases h
+  · rintro ⟨p, hp, h1, h2, h3, h4, h5⟩
+    refine ⟨p, hp, ?_⟩
+    have hc : (isMetaKey P p.1 && isValidMetadataKey (mdKeyOf P p.1) && lower (mdKeyOf P p.1) == k' && isValidMetadataValue p.2) = true := by
+      simp [h1, h2, h3, h4]
+    rw [if_pos hc, h5]
+
+/-- FOR EVERY RAW QUERY STRING: the parameters left for the router / the message binding contain NO metadata entry
+    (valid or not), and every other key keeps all its values in raw-query order (duplicates included). -/
+theorem C19_rawquery_remaining (param raw k : Bytes) :
+    mdLookup (rawMetadataQuery param raw).query k =
+      if isMetaKey (if param.isEmpty then defaultParam else param) k then []
+      else valuesOf k (queryPairs raw) := by
+  unfold rawMetadataQuery parseMetadataQuery
+  simp only
+  rw [lookup_filter_notmeta, C19_urlquery_values]
+
+/-- end to end on the WebSocket entry, over the raw query and the header map: what the forwarder is handed under a
+    key = the raw query's valid metadata values (any order among spellings) followed by the header values -/
+theorem C19_rawquery_joined (param raw : Bytes) (hdr : MD) (k' : Bytes) :
+    (GB.C07.MD.lookup (wsIncoming param (urlQuery raw) hdr) k').Perm
+      (rawCollect (if param.isEmpty then defaultParam else param) k' (queryPairs raw) ++
+        GB.C07.MD.lookup (GB.C07.headersToMD hdr) k') := by
+  rw [C19_mdquery_joined]
+  exact List.Perm.append_right _ (collect_group_perm _ _ _)
+
+/-- `url.QueryUnescape (url.QueryEscape s) = s` for every byte string: the rewritten `RawQuery`
+    (`modified.Encode()`) gives the router back exactly the keys and values that were kept -/
+theorem C19_unescape_escape (s : Bytes) : unescape (escape s) = some s := unescape_escape s
+
+/-- a component without '%' and '+' is taken literally, whatever other bytes it has (`[`, `]`, NUL, UTF-8, …) -/
+theorem C19_unescape_plain (s : Bytes) (h1 : (37 : UInt8) ∉ s) (h2 : (43 : UInt8) ∉ s) : unescape s = some s :=
+  unescape_plain s h1 h2
+
+/-- kernel-checked instance with every irregularity at once:
+    `a=1&&b=%zz&c;d=2&e=+%41&=x&f&_metadata[X-A]=v%201&%5Fmetadata%5bx-a%5D=w&_metadata[x-a]=%7f&_metadata[x%20]=u&g=%4`
+    — empty segment, malformed escapes (`%zz`, truncated `%4`) and the ';' segment skipped, '+' ↦ space, empty key,
+    key without '=', an escaped spelling of the metadata key; metadata `x-a = [v 1, w]` (0x7F and the key `x ` dropped),
+    and the four metadata entries all gone from what is left. -/
+theorem C19_rawquery_example :
+    let raw : Bytes := [97,61,49,38,38,98,61,37,122,122,38,99,59,100,61,50,38,101,61,43,37,52,49,38,61,120,38,102,38,95,109,101,116,97,100,97,116,97,91,88,45,65,93,61,118,37,50,48,49,38,37,53,70,109,101,116,97,100,97,116,97,37,53,98,120,45,97,37,53,68,61,119,38,95,109,101,116,97,100,97,116,97,91,120,45,97,93,61,37,55,102,38,95,109,101,116,97,100,97,116,97,91,120,37,50,48,93,61,117,38,103,61,37,52]
+    queryPairs raw =
+      [([97], [49]), ([101], [32,65]), ([], [120]), ([102], []),
+       ([95,109,101,116,97,100,97,116,97,91,88,45,65,93], [118,32,49]),
+       ([95,109,101,116,97,100,97,116,97,91,120,45,97,93], [119]),
+       ([95,109,101,116,97,100,97,116,97,91,120,45,97,93], [127]),
+       ([95,109,101,116,97,100,97,116,97,91,120,32,93], [117])] ∧
+    (rawMetadataQuery [] raw).md = [([120,45,97], [[118,32,49], [119]])] ∧
+    (rawMetadataQuery [] raw).query = [([97], [[49]]), ([101], [[32,65]]), ([], [[120]]), ([102], [[]])] := by
   decide
